@@ -24,12 +24,12 @@ func (e *C08Script) Rule() string {
 }
 func (e *C08Script) Cases(tier string, _ int64) int {
 	if tier == "thorough" {
-		return 1500
+		return 3000
 	}
-	return 150
+	return 300
 }
 func (e *C08Script) Floors(string) map[string]int {
-	return map[string]int{"C08.script-holds-judged": 100, "C08.script-releases-judged": 100}
+	return map[string]int{"C08.script-holds-judged": 200, "C08.script-releases-judged": 200}
 }
 
 func (e *C08Script) Run(ctx *core.Ctx, idx int) {
